@@ -184,3 +184,38 @@ func init() {
 		},
 	})
 }
+
+func init() {
+	serveUnits := []string{"fasthttp.(*Server).ServeConn", "fasthttp.(*Server).serveConn", "fasthttp.(*Server).serveConnCounted", "fasthttp.(*Server).setState", "fasthttp.writeResponse", "fasthttp.(*Request).", "fasthttp.(*Response).", "fasthttp.(*RequestHeader).", "fasthttp.(*ResponseHeader).", "fasthttp.(*requestStream)", "fasthttp.hijackConnHandler", "fasthttp.(*RequestCtx)", "bufio."}
+	serveAssume := "the real Server.ServeConn loop is interpreted on a scripted in-memory net.Conn (one segment per Read, no deadlines, writes always succeed); NoDefaultDate and NoDefaultServerHeader are set; TLS, timeouts, listener/worker-pool path (Server.Serve) and write errors are outside this check"
+	register(&Property{
+		ID:    "C02",
+		Units: serveUnits,
+		Runs: []Run{
+			{Pkg: "fasthttp", Func: "vhC02UnreadBody", Quick: map[string]int{"big": 1}, Thorough: map[string]int{"big": 1}},
+		},
+		Assume: []string{serveAssume,
+			"input family: POST /first whose body spells a complete request (31 bytes, or 9031 bytes with the request-shaped bytes after the 8 KiB prefetch), fixed-length or chunked, with/without Expect: 100-continue (accepted or rejected by ContinueHandler), followed by GET /second in the same or the next segment; handler reads none, 5 bytes or all of the stream; StreamRequestBody on/off; the inputs are choices over this grammar (no free symbolic bytes), all decided on the symbolic executor",
+		},
+	})
+	register(&Property{
+		ID:    "C10",
+		Units: serveUnits,
+		Runs: []Run{
+			{Pkg: "fasthttp", Func: "vhC10Persistence", Quick: map[string]int{"requests": 2}, Thorough: map[string]int{"requests": 3}},
+		},
+		Assume: []string{serveAssume,
+			"server half only: up to `requests` requests drawn from {HTTP/1.1, HTTP/1.1 close, HTTP/1.0, HTTP/1.0 keep-alive, POST with body} × DisableKeepalive × MaxRequestsPerConn ∈ {0,1} × handler SetConnectionClose position, followed by a sentinel request that is answered only if the connection is still open; responses are split by an independent minimal reader; CloseOnShutdown and the client's reuse decision are outside this check",
+		},
+	})
+	register(&Property{
+		ID:    "C14",
+		Units: serveUnits,
+		Runs: []Run{
+			{Pkg: "fasthttp", Func: "vhC14ConnState", Quick: map[string]int{"requests": 2}, Thorough: map[string]int{"requests": 3}},
+		},
+		Assume: []string{serveAssume,
+			"connection histories: 0..`requests` requests (one per Read) from {HTTP/1.1, close, HTTP/1.0, HTTP/1.0 keep-alive, POST with body}, optional hijack by one handler, ReduceMemoryUsage on/off; malformed requests, timeouts and rejection by limits are outside this check",
+		},
+	})
+}
